@@ -37,6 +37,53 @@ var vc11QTypes = []uint16{
 	dns.TypeA, dns.TypeAAAA, dns.TypeHTTPS,
 	dns.TypeA, dns.TypeAAAA, dns.TypeHTTPS,
 	dns.TypeTXT, dns.TypeCNAME, dns.TypeMX, dns.TypeSVCB, dns.TypeANY, dns.TypePTR, dns.TypeNS,
+	dns.TypeNone, dns.TypeReserved,
+}
+
+func vc11TypeString(qt uint16) string { return dns.Type(qt).String() }
+
+// vc11NearHosts returns the names of the universe that differ from n in
+// exactly one label: the parent, the children, and the names of the same
+// length with one label exchanged.
+func vc11NearHosts(n vc11Name, universe []vc11Name) (near []vc11Name) {
+	for _, u := range universe {
+		switch d := len(u.labels) - len(n.labels); d {
+		case 1, -1:
+			long, short := u.labels, n.labels
+			if d < 0 {
+				long, short = n.labels, u.labels
+			}
+
+			if strings.Join(long[1:], ".") == strings.Join(short, ".") {
+				near = append(near, u)
+			}
+		case 0:
+			diff := 0
+			for i := range u.labels {
+				if u.labels[i] != n.labels[i] {
+					diff++
+				}
+			}
+
+			if diff == 1 {
+				near = append(near, u)
+			}
+		}
+	}
+
+	return near
+}
+
+// vc11MixCase returns s with some letters in upper case.
+func vc11MixCase(t *rapid.T, s string) string {
+	b := []byte(s)
+	for i := range b {
+		if b[i] >= 'a' && b[i] <= 'z' && rapid.Bool().Draw(t, "upper") {
+			b[i] -= 'a' - 'A'
+		}
+	}
+
+	return string(b)
 }
 
 func vc11Filterable(qt uint16) bool {
@@ -46,6 +93,11 @@ func vc11Filterable(qt uint16) bool {
 // vc11TableAgrees reports whether the harness table and the table the
 // repository is built with give the same public suffix for n.
 func vc11TableAgrees(n vc11Name) bool {
+	if len(n.labels) == 0 {
+		// The root name has no public suffix.
+		return true
+	}
+
 	got, icann := publicsuffix.PublicSuffix(n.String())
 
 	return got == n.vc11Tail(n.ps).String() && icann == (n.ps == n.icann)
@@ -73,7 +125,8 @@ func TestVerifC11Filter(t *testing.T) {
 			"ancestor among the must-candidates listed; distinct by (host, qtype, listed set)",
 		"match-ancestor", "match-self", "nomatch-only-public-suffix-listed", "nomatch-only-beyond-cut-listed",
 		"nomatch-prefix-twin-listed", "unfilterable-qtype-listed", "refresh-removed", "refresh-added", "relookup-same-version",
-		"sfx-private", "sfx-unlisted", "sfx-icann4")
+		"sfx-private", "sfx-unlisted", "sfx-icann4", "near-miss-host", "near-miss-qtype", "near-miss-qtype-filterability",
+		"root-name", "match-private-suffix-itself", "match-unlisted-tld")
 	st.Finish(t)
 
 	if p := vc11SelfCheck(); p != "" {
@@ -149,6 +202,13 @@ func TestVerifC11Filter(t *testing.T) {
 		seen := map[vc11Lookup]bool{}
 		var lookups []vc11Lookup
 
+		byName := map[string]vc11Name{}
+		for _, u := range universe {
+			byName[u.String()] = u
+		}
+
+		pooled := &internal.Request{}
+
 		nOps := rapid.IntRange(1, 14).Draw(t, "nOps")
 		for op := 0; op < nOps; op++ {
 			kind := rapid.IntRange(0, 9).Draw(t, "op")
@@ -173,16 +233,36 @@ func TestVerifC11Filter(t *testing.T) {
 
 			var n vc11Name
 			var qt uint16
-			if kind <= 4 && len(lookups) > 0 {
+			nearMiss := ""
+			switch {
+			case kind <= 3 && len(lookups) > 0:
 				// Repeat an earlier lookup (result cache, refresh effects).
 				lu := rapid.SampledFrom(lookups).Draw(t, "again")
-				qt = lu.qt
-				for _, u := range universe {
-					if u.String() == lu.host {
-						n = u
+				n, qt = byName[lu.host], lu.qt
+			case kind <= 6 && len(lookups) > 0:
+				// A near miss of an earlier lookup: exactly one component
+				// changed, the question type or one label of the host.
+				lu := rapid.SampledFrom(lookups).Draw(t, "nearOf")
+				n, qt = byName[lu.host], lu.qt
+				near := vc11NearHosts(n, universe)
+				if len(near) > 0 && rapid.Bool().Draw(t, "nearHost") {
+					n = rapid.SampledFrom(near).Draw(t, "nearHostTo")
+					nearMiss = "near-miss-host"
+				} else {
+					var others []uint16
+					for _, o := range vc11QTypes {
+						if o != qt {
+							others = append(others, o)
+						}
+					}
+
+					qt = rapid.SampledFrom(others).Draw(t, "nearQType")
+					nearMiss = "near-miss-qtype"
+					if vc11Filterable(qt) != vc11Filterable(lu.qt) {
+						nearMiss = "near-miss-qtype-filterability"
 					}
 				}
-			} else {
+			default:
 				n = rapid.SampledFrom(universe).Draw(t, "host")
 				qt = rapid.SampledFrom(vc11QTypes).Draw(t, "qt")
 			}
@@ -192,11 +272,20 @@ func TestVerifC11Filter(t *testing.T) {
 				vc11Inconclusive(t, "harness suffix table disagrees with publicsuffix for %q", host)
 			}
 
+			// As in the main middleware the request object is reused, the
+			// host is normalised and the message keeps the client's case.
 			lu := vc11Lookup{host: host, qt: qt}
-			req := &internal.Request{
+			qname := dns.Fqdn(host)
+			mixed := rapid.IntRange(0, 2).Draw(t, "mixCase") == 0
+			if mixed {
+				qname = vc11MixCase(t, qname)
+			}
+
+			req := pooled
+			*req = internal.Request{
 				DNS: &dns.Msg{
 					MsgHdr:   dns.MsgHdr{Id: uint16(op + 1), RecursionDesired: true},
-					Question: []dns.Question{{Name: dns.Fqdn(host), Qtype: qt, Qclass: dns.ClassINET}},
+					Question: []dns.Question{{Name: qname, Qtype: qt, Qclass: dns.ClassINET}},
 				},
 				Messages: msgs,
 				RemoteIP: filtertest.IPv4Client,
@@ -204,12 +293,20 @@ func TestVerifC11Filter(t *testing.T) {
 				QType:    qt,
 				QClass:   dns.ClassINET,
 			}
+			dnsReq := req.DNS
 
 			r, err := f.FilterRequest(ctx, req)
-			history = append(history, fmt.Sprintf("lookup %s %s -> %s", dns.TypeToString[qt], host, vc11ResultString(r, err)))
+			history = append(history, fmt.Sprintf("lookup %s %s -> %s", vc11TypeString(qt), host, vc11ResultString(r, err)))
 			if err != nil {
 				t.Fatalf("FilterRequest returned an error: %v\nhistory:\n%s", err, strings.Join(history, "\n"))
 			}
+
+			if q := dnsReq.Question; len(q) != 1 || q[0].Name != qname || q[0].Qtype != qt || req.Host != host || req.QType != qt {
+				t.Fatalf("FilterRequest changed the caller's request: question %v host %q\nhistory:\n%s",
+					dnsReq.Question, req.Host, strings.Join(history, "\n"))
+			}
+
+			req.DNS = nil
 
 			exp := vc11ExpectFor(n, list.listed)
 			filterable := vc11Filterable(qt)
@@ -219,7 +316,7 @@ func TestVerifC11Filter(t *testing.T) {
 			// Classes.
 			classes := []string{
 				fmt.Sprintf("labels-%d", min(len(n.labels), 8)),
-				fmt.Sprintf("qtype-%s", dns.TypeToString[qt]),
+				fmt.Sprintf("qtype-%s", vc11TypeString(qt)),
 			}
 			for _, s := range vc11Suffixes {
 				if len(n.labels) >= s.ps && n.vc11Tail(min(len(n.labels), s.ps)).String() == s.name {
@@ -242,6 +339,19 @@ func TestVerifC11Filter(t *testing.T) {
 
 				if self {
 					classes = append(classes, "match-self")
+				}
+
+				// Only names inside the complete public suffix but above the
+				// ICANN one are listed: the documented reading decides.
+				inside := true
+				for _, m := range exp.mustListed {
+					inside = inside && strings.Count(m, ".")+1 <= n.ps
+				}
+
+				if inside && n.icann > 0 {
+					classes = append(classes, "match-private-suffix-itself")
+				} else if inside {
+					classes = append(classes, "match-unlisted-tld")
 				}
 
 				if ancestor {
@@ -285,6 +395,18 @@ func TestVerifC11Filter(t *testing.T) {
 				classes = append(classes, "relookup-same-version")
 			}
 
+			if nearMiss != "" {
+				classes = append(classes, nearMiss)
+			}
+
+			if mixed {
+				classes = append(classes, "dns-name-mixed-case")
+			}
+
+			if host == "" {
+				classes = append(classes, "root-name")
+			}
+
 			if prevMust[lu] && wantMustNot && filterable {
 				classes = append(classes, "refresh-removed")
 			}
@@ -309,7 +431,7 @@ func TestVerifC11Filter(t *testing.T) {
 			switch {
 			case wantMust && !matched:
 				t.Fatalf("COMPLETENESS: %s %s is not matched although %v listed (list %s)\nhistory:\n%s",
-					dns.TypeToString[qt], host, exp.mustListed, id, strings.Join(history, "\n"))
+					vc11TypeString(qt), host, exp.mustListed, id, strings.Join(history, "\n"))
 			case wantMustNot && matched:
 				if filterable && vc11IsKnownPrivateTLD(n, r, list.listed) && st.Known(vc11KnownPrivateTLD) {
 					continue
@@ -317,7 +439,7 @@ func TestVerifC11Filter(t *testing.T) {
 
 				t.Fatalf("SOUNDNESS: %s %s is matched (%s) although no name that may be consulted is listed "+
 					"(filterable=%t, listed tails that must not be consulted: %v)\nhistory:\n%s",
-					dns.TypeToString[qt], host, vc11ResultString(r, nil), filterable, exp.excluded, strings.Join(history, "\n"))
+					vc11TypeString(qt), host, vc11ResultString(r, nil), filterable, exp.excluded, strings.Join(history, "\n"))
 			}
 
 			if !matched {
